@@ -244,7 +244,9 @@ def run_conn(case, acc):
     if what == 'gai':
         kw['gai_error'] = True
     elif what in ('refused', 'timeout', 'sockfail'):
-        kw['addrs'] = [(what, ('10.0.0.%d' % (k + 1), 80)) for k in range(case['naddr'])]
+        # resolver results of both families: IPv6 sockaddrs are 4-tuples
+        kw['addrs'] = [(what, ('10.0.0.%d' % (k + 1), 80) if (k + case['naddr']) % 2 else ('2001:db8::%d' % (k + 1), 80, 0, 0))
+                       for k in range(case['naddr'])]
     elif what == 'sendfail':
         faults[('sendall', 0)] = case['fault']
     elif what == 'connectfault':
